@@ -95,6 +95,13 @@ def extra_cases():
                            (["k1", "k2"], "k1 "), (["", "k2"], None)):
             for signer in range(len(kids)):
                 out.append({"op": "kidtype", "form": form, "kids": kids, "hkid": hkid, "signer": signer})
+    # a key-resolver callable: the token is verified with what the callable returns and with nothing else, whatever the header offers
+    for alg in ("HS256", "RS256", "ES256", "EdDSA"):
+        for returns in ("right", "none", "wrong"):
+            for signed_by in ("right", "attacker"):
+                for jwk_header in (False, True):
+                    for api in ("jws", "jwt"):
+                        out.append({"op": "callable", "alg": alg, "returns": returns, "signed_by": signed_by, "jwk_header": jwk_header, "api": api})
     jwe_tokens = {"dir": ("dir", "A128CBC-HS256"), "A256KW": ("A256KW", "A128GCM")}
     for name, (alg, enc) in jwe_tokens.items():
         for allow in (["HS256"], ["HS256", "HS512"], [], ["RS256", "ES256"], "default", [alg], [enc], [alg, enc], ["HS256", alg, enc], ["A128KW", "A256GCM"]):
@@ -117,6 +124,30 @@ def impl_extra(c):
             return {"accepted": True}
         except Exception as e:
             return {"accepted": False, "error": type(e).__name__}
+    if c["op"] == "callable":
+        from authlib.jose import JsonWebKey
+        def key(n, private):
+            if c["alg"] == "HS256":
+                return OctKey.import_key(bytes([64 + n]) * 32)
+            kk = R.keys()[R.key_for_alg(c["alg"], n)]
+            return JsonWebKey.import_key(R.pem_private(kk) if private else R.pem_public(kk))
+        signer = 1 if c["signed_by"] == "right" else 2
+        header = {"alg": c["alg"]}
+        if c["jwk_header"]:
+            header["jwk"] = dict(key(signer, False).as_dict(is_private=(c["alg"] == "HS256")))
+        tok = JsonWebSignature().serialize_compact(header, b'{"sub":"x"}', key(signer, True))
+        calls = []
+        def resolver(h, p):
+            calls.append(1)
+            return {"right": key(1, False), "none": None, "wrong": key(2, False) if signer == 1 else key(1, False)}[c["returns"]]
+        try:
+            if c["api"] == "jws":
+                JsonWebSignature().deserialize_compact(tok, resolver)
+            else:
+                JsonWebToken([c["alg"]]).decode(tok, resolver)
+            return {"accepted": True, "resolver_called": bool(calls)}
+        except Exception as e:
+            return {"accepted": False, "error": type(e).__name__, "resolver_called": bool(calls)}
     tok = JsonWebEncryption().serialize_compact({"alg": c["alg"], "enc": c["enc"]}, b'{"sub":"mallory"}', sec)
     inst = default_jwt if c["allowed"] == "default" else JsonWebToken(c["allowed"])
     try:
@@ -229,7 +260,7 @@ ERR = [(je.MissingAlgorithmError, "missing_algorithm"), (je.UnsupportedAlgorithm
 def impl(c):
     if c["op"] == "confusion":
         return impl_confusion(c)
-    if c["op"] in ("kidtype", "jwe_allow"):
+    if c["op"] in ("kidtype", "jwe_allow", "callable"):
         return impl_extra(c)
     tok, header = make_token(c)
     arg = c["arg"]
@@ -297,7 +328,7 @@ def impl_confusion(c):
 
 
 def model_line(c):
-    if c["op"] in ("kidtype", "jwe_allow"):
+    if c["op"] in ("kidtype", "jwe_allow", "callable"):
         return None
     if c["op"] == "confusion":
         return {"op": "oct_import", "raw": c["raw"]}
@@ -377,6 +408,14 @@ def oracle(c, out):
         if out["accepted"] and not ok_expected:
             v.append((f"header kid {c['hkid']!r} selected a key of the set with kids {c['kids']} ({c['form']}): no member has that kid", {"kind": "kid-type-confusion", "form": c["form"]}))
         return v
+    if c["op"] == "callable":
+        want = c["returns"] == "right" and c["signed_by"] == "right"
+        if out["accepted"] and not want:
+            v.append((f"{c['api']}: token signed by the {c['signed_by']} key{' carrying its own jwk header' if c['jwk_header'] else ''} verified although the caller's key resolver returned "
+                      f"{ {'none': 'no key', 'wrong': 'another key', 'right': 'the right key'}[c['returns']] }", {"kind": "resolver-bypassed", "alg": c["alg"]}))
+        if not out["accepted"] and want:
+            v.append((f"{c['api']}: token signed by the key the resolver returns was refused ({out.get('error')})", {"kind": "refused-within-policy", "alg": c["alg"], "form": "callable"}))
+        return v
     if c["op"] == "jwe_allow":
         listed = c["allowed"] != "default" and c["alg"] in c["allowed"] and c["enc"] in c["allowed"]
         if out["accepted"] and not listed:
@@ -399,7 +438,7 @@ def oracle(c, out):
 
 
 def classify(c, out):
-    if c["op"] in ("kidtype", "jwe_allow"):
+    if c["op"] in ("kidtype", "jwe_allow", "callable"):
         return c["op"] + "/" + ("accepted" if out["accepted"] else "refused")
     if c["op"] == "confusion":
         return "confusion/" + ("accepted" if out["accepted"] else "refused") + ("/loads" if out["_loads"] else "")
